@@ -372,7 +372,8 @@ def expansion_scenarios(run: Run, model: PyModel) -> None:
     from ..absint import Raised
     from ..virtual import World, vpath
 
-    pages = {"plain": "# W +p O alpha", "alt": "# W a | b\n\n- some old result", "outer": "# W x {alt}", "grp": "# W (o +aa) | (- +bb) G file", "dangling": "# W y {nope}"}
+    pages = {"plain": "# W +p O alpha", "alt": "# W a | b\n\n- some old result", "outer": "# W x {alt}", "grp": "# W (o +aa) | (- +bb) G file", "dangling": "# W y {nope}",
+             "leaf": "# W +leaf", "left": "# W l {leaf}", "right": "# W r {leaf}", "dia": "# W {left} {right}"}
     W = World(model, files={}, old_map=None, indexed=set(), errors=set(), whitelist=[""], contents={f"/Z/zoq/{k}.zoq": v for k, v in pages.items()}, missing="all-but-contents")
     from ..absint import Interp, State
 
@@ -380,7 +381,9 @@ def expansion_scenarios(run: Run, model: PyModel) -> None:
     clause = {"plain": "+p", "alt": "a | b", "grp": "(o +aa) | (- +bb)"}
     clause["outer"] = "x (a | b)"
     cases = [("W z {plain}", [("plain", clause["plain"])]), ("W z {alt}", [("alt", clause["alt"])]), ("W {alt} z", [("alt", clause["alt"])]), ("W z {outer}", [("outer", clause["outer"])]),
-             ("W z {grp}", [("grp", clause["grp"])]), ("W {plain} {alt}", [("plain", clause["plain"]), ("alt", clause["alt"])]), ("W z {nope}", None), ("W z {dangling}", None), ("W plain text", [])]
+             ("W z {grp}", [("grp", clause["grp"])]), ("W {plain} {alt}", [("plain", clause["plain"]), ("alt", clause["alt"])]), ("W z {nope}", None), ("W z {dangling}", None), ("W plain text", []),
+             # a saved query reached along two paths of an ACYCLIC reference graph (diamond), and the same reference twice in one query
+             ("W z {dia}", [("dia", "l +leaf r +leaf")]), ("W {left} {right}", [("left", "l +leaf"), ("right", "r +leaf")]), ("W {plain} z {plain}", [("plain", clause["plain"])])]
     n = 0
     for q, refs in cases:
         try:
